@@ -282,7 +282,7 @@ class CuckooFilter:
             raise ValueError(msg)
         # bytes to bits
         self._fingerprint_size = tmp * 8
-        self._calc_error_rate()  # if updating fingerprint size then error rate may change
+        self._error_rate = self._calc_error_rate()  # if updating fingerprint size then error rate may change
 
     def load_factor(self) -> float:
         """float: How full the Cuckoo Filter is currently"""
